@@ -113,32 +113,42 @@ def _roots_and_patterns(db, chk, m):
     ok_call = len(stack_calls) == 1 and stack_calls[0][0] == [("at", ("row",), T.col(TR, "index"))] and stack_calls[0][1] == {"skip_ancestors": T.C(True)}
     chk.ob("C16.R2-pattern", "each root contributes the call stack beneath ITS id, without ancestors", ok_call, where, found=[[T.show(x)[:60] for x in a] + [str(k) for k in kw.items()] for a, kw in stack_calls],
            accepted="cg.get_stack_of_node(index, skip_ancestors=True)")
-    ck = next((v for v in r.env.values() if isinstance(v, Frame) and v.base == STK and v.order is not None), None)
-    okk = isinstance(ck, Frame) and ck.base == STK and isinstance(ck.order, tuple) and ck.order[0] == "sort" and ck.order[1] == (T.col(STK, "ts"),) and ck.order[2] is True
+    # the kernel list of an instance is read off the pattern key itself: tolist(STACK.name) in some row context of the stack frame
+    cnt_ev = [e for e in r.events if e["kind"] == "dict-store" and e.get("module") == m.name and e["value"] == T.C(1)]
+    pat = cnt_ev[0]["key"] if len(cnt_ev) == 1 else T.opaque("pattern key not found")
+    tl = [s_ for s_ in T.find(pat, lambda s_: s_[0] == "tolist" and len(s_) == 3 and s_[1] == T.col(STK, "name"))]
+    kctx = tl[0][2] if len(tl) == 1 and isinstance(tl[0][2], tuple) and len(tl[0][2]) == 3 else None
+    okk = kctx is not None and kctx[0] == STK and isinstance(kctx[2], tuple) and kctx[2] and kctx[2][0] == "sort" and kctx[2][1] == (T.col(STK, "ts"),) and kctx[2][2] is True
     tt = None
-    if isinstance(ck, Frame):
+    if kctx is not None:
         try:
-            tt = {sv: bool(T.evaluate(ck.rows, lambda leaf, sv=sv: sv if leaf == T.col(STK, "stream") else (_ for _ in ()).throw(T.Unknown(leaf)))) for sv in (-1, 1, 7)}
+            tt = {sv: bool(T.evaluate(kctx[1], lambda leaf, sv=sv: sv if leaf == T.col(STK, "stream") else (_ for _ in ()).throw(T.Unknown(leaf)))) for sv in (-1, 1, 7)}
         except T.Unknown:
             tt = None
-    chk.ob("C16.R2-pattern", "kernels of an instance = the device rows of its stack (truth table over stream), in start-time order", (okk and tt == {-1: False, 1: True, 7: True}) if isinstance(ck, Frame) else None, where,
-           found={"table": tt, "order": T.show_order(ck.order) if isinstance(ck, Frame) else None}, accepted="stack.loc[stream != -1] sorted by ts ascending")
-    cnt_ev = [e for e in r.events if e["kind"] == "dict-store" and e["func"].endswith("get_frequent_cuda_kernel_sequences") and e["value"] == T.C(1)]
-    pat = cnt_ev[0]["key"] if len(cnt_ev) == 1 else T.opaque("pattern key not found")
+    chk.ob("C16.R2-pattern", "kernels of an instance = the device rows of its stack (truth table over stream), in start-time order", (okk and tt == {-1: False, 1: True, 7: True}) if kctx is not None else None, where,
+           found={"table": tt, "order": T.show_order(kctx[2]) if kctx is not None else None}, accepted="stack.loc[stream != -1] sorted by ts ascending")
     root_name = ("at", ("row",), NAME)
-    exp_pat = ("tuple", ("binop", "Add", ("list", (root_name,)), ("tolist", T.col(STK, "name"), ck.ctx() if isinstance(ck, Frame) else None)))
-    okp = pat[0] in ("tuple", "call") and root_name in [s for s in T.subterms(pat)] and T.find(pat, lambda s: s[0] == "tolist" and s[1] == T.col(STK, "name") and isinstance(ck, Frame) and s[2] == ck.ctx()) != []
-    chk.ob("C16.R2-pattern", "pattern = (the root's name,) followed by the names of those kernels", okp, where, found=T.show(pat)[:200], accepted="tuple([name] + cuda_kernels['name'].tolist())")
+    # the key is a tuple whose FIRST component is the root's name and whose remaining components are exactly that kernel list
+    okp = False
+    if pat[0] == "tuple" and len(pat) == 2 and isinstance(pat[1], tuple):
+        inner = pat[1]
+        if inner and inner[0] == "listcat":                                            # tuple([name] + kernels)
+            okp = inner[1] == ("list", (root_name,)) and len(tl) == 1 and inner[2] == tl[0]
+        elif len(inner) == 2 and inner[0] == root_name:                               # (name, *kernels)
+            okp = isinstance(inner[1], tuple) and inner[1][0] == "starred" and len(tl) == 1 and inner[1][1] == tl[0]
+    chk.ob("C16.R2-pattern", "pattern = (the root's name,) followed by the names of those kernels", okp if not T.has_opaque(pat) else None, where, found=T.show(pat)[:200], accepted="tuple([name] + cuda_kernels['name'].tolist())")
     cnt = cnt_ev
     okcnt = len(cnt) == 1 and cnt[0]["key"] == pat and cnt[0]["value"] == T.C(1)
     chk.ob("C16.R2-pattern", "each instance adds 1 to its pattern's count", okcnt, where, found=[(T.show(e["value"])[:40]) for e in cnt], accepted="pattern_counts[pattern] += 1")
-    dur = [e for e in r.events if e["kind"] == "list-store" and e["func"].endswith("get_frequent_cuda_kernel_sequences")]
+    dur = [e for e in r.events if e["kind"] == "list-store" and e.get("module") == m.name]
     vals = {T.show(e["key"]): e["value"] for e in dur}
     okd = vals.get("0") == ("at", ("row",), T.col(TR, "kernel_dur_sum")) and vals.get("1") == ("at", ("row",), T.col(TR, "dur")) and len(dur) == 2
     chk.ob("C16.R2-pattern", "durations: [0] += the root's kernel_dur_sum (GPU), [1] += the root's dur (CPU)", okd, where, found={k: T.show(v)[:60] for k, v in vals.items()},
            accepted={"0": "kernel_dur_sum of the root", "1": "dur of the root"}, why="the loop unpacks (index, name, dur, kernel_dur_sum) positionally from the projected columns")
     proj = rn and [e for e in r.events if e["kind"] == "project" and e.get("cols") == ["index", "name", "dur", "kernel_dur_sum"]]
-    chk.ob("C16.R2-pattern", "the positional unpacking agrees with the projected column order", bool(proj), where, found=[e.get("cols") for e in r.events if e["kind"] == "project"][:4], accepted=["index", "name", "dur", "kernel_dur_sum"])
+    # (only relevant when the loop unpacks rows of a projected frame positionally; a zip over explicitly named columns binds by name)
+    by_name = any(e["kind"] == "loop-enter" and isinstance(e.get("iter"), tuple) and e["iter"] and e["iter"][0] == "zip" for e in r.events)
+    chk.ob("C16.R2-pattern", "the positional unpacking agrees with the projected column order", bool(proj) or (by_name and okd), where, found=[e.get("cols") for e in r.events if e["kind"] == "project"][:4], accepted=["index", "name", "dur", "kernel_dur_sum"])
     chk.floor("C16.R1-root-selection", 3)
     chk.floor("C16.R2-pattern", 5)
 
